@@ -10,6 +10,11 @@ def withTree (toks : List String) (f : Ex → List String → String) : String :
   | some (t, rest) => f t rest
   | none => "bad-tree"
 
+def withShape (toks : List String) (f : BT → String) : String :=
+  match BT.ofWire (toks.length + 1) toks with
+  | some (t, _) => f t
+  | none => "bad-shape"
+
 def answer (line : String) : String :=
   match (line.trimAscii.toString.splitOn " ").filter (· ≠ "") with
   | "apply" :: r :: i :: rest =>
@@ -44,6 +49,24 @@ def answer (line : String) : String :=
     match ops.mapM POp.ofWire with
     | some ops => " ; ".intercalate ((runOps PState.init [] ops).map POut.toWire)
     | none => "bad-op"
+  | "visit" :: ord :: stop :: rest => withShape rest fun t =>
+      let stopF : Nat → Nat → Bool := match stop.toNat? with
+        | some s => fun i _ => i == s
+        | none => fun _ _ => false
+      let (tr, st) := match ord with
+        | "pre" => t.visitPre stopF 0
+        | "in" => t.visitIn stopF 0
+        | _ => t.visitPost stopF 0
+      s!"trace {traceToWire tr} | {st}"
+  | "rotate" :: i :: rest => withShape rest fun t =>
+      match i.toNat? with
+      | some i =>
+        let shape := match t.pathOf i with
+          | some p => t.rotateAt p
+          | none => t
+        let h := (Heap.ofCells (t.toCells none)).rotate i
+        s!"shape {shape.toWire} cells {cellsToWire h t.ids}"
+      | none => "bad-op"
   | "eval" :: rest => withTree rest fun t env => (eval (envOfWire env) t).toWire
   | _ => "bad-op"
 
